@@ -4,7 +4,7 @@
    [chain root l] = the positions root .. x with the field / index each is stored under (none for the root);
    [R ct els chain] = the documented meaning (two rules: an element sits on a position; an element preceded by //
    passes over a position); [els] root first = ASTXpath._elements. *)
-From Oak Require Import Spec.PathSem Proofs.TraverseProofs Proofs.TreeQProofs Proofs.XpathProofs.
+From Oak Require Import Spec.PathSem Proofs.TraverseProofs Proofs.TreeQProofs Proofs.XpathProofs Proofs.FindallProofs.
 
 (* every well-formed xpath (last step has a class) compiles, to at least one element *)
 Theorem C07_to_elements_ok : forall x, well_formed x = true -> exists els, to_elements x = Some els /\ els <> [].
@@ -19,6 +19,17 @@ Proof. exact xmatch_sem. Qed.
 Theorem C07_match_foreign : forall ct root els x,
   wf_node ct root = true -> nodup_tree root -> foreign root x -> xmatch ct root els x = Some ValueError.
 Proof. exact xmatch_foreign. Qed.
+
+(* findall(root) terminates and yields, each once (no node object twice), exactly the nodes of the tree whose chain
+   satisfies the documented semantics: sem ct els root x = exists l, path root l x /\ R ct els (chain root l) *)
+Theorem C07_findall_sem : forall ct root els, wf_node ct root = true -> nodup_tree root -> els <> [] ->
+  exists res, findall ct root els = Some res /\ (forall x, In x res <-> sem ct els root x) /\ NoDup (map addr res).
+Proof. exact findall_sem. Qed.
+(* corollary: the two algorithms agree - findall yields exactly the nodes n of the tree with match(root, n) True *)
+Theorem C07_findall_match : forall ct root els, wf_node ct root = true -> nodup_tree root -> els <> [] ->
+  exists res, findall ct root els = Some res /\ NoDup (map addr res) /\
+    forall l x, path root l x -> (In x res <-> xmatch ct root els x = Some (Ok true)).
+Proof. exact findall_match. Qed.
 
 (* find() is the first node findall yields, None when it yields nothing *)
 Theorem C07_find_first : forall ct root els, find ct root els = option_map (@hd_error node) (findall ct root els).
